@@ -120,6 +120,7 @@ impl AuthorizerBuilder {
         }
 
         for (_, rule) in source_result.rules.into_iter() {
+            super::rule::validate_parsed_rule(&rule)?;
             let mut rule: Rule = rule.into();
             for (name, value) in &params {
                 let res = match rule.set(name, value) {
@@ -150,6 +151,9 @@ impl AuthorizerBuilder {
         }
 
         for (_, check) in source_result.checks.into_iter() {
+            for query in &check.queries {
+                super::rule::validate_parsed_rule(query)?;
+            }
             let mut check: Check = check.into();
             for (name, value) in &params {
                 let res = match check.set(name, value) {
@@ -179,6 +183,9 @@ impl AuthorizerBuilder {
             self.authorizer_block_builder.checks.push(check);
         }
         for (_, policy) in source_result.policies.into_iter() {
+            for query in &policy.queries {
+                super::rule::validate_parsed_rule(query)?;
+            }
             let mut policy: Policy = policy.into();
             for (name, value) in &params {
                 let res = match policy.set(name, value) {
